@@ -70,6 +70,15 @@ Proof. intros h l t H. unfold get_str. rewrite H. reflexivity. Qed.
 Lemma get_arr_of : forall h l vs, h_get h l = Ok (OArr vs) -> get_arr h l = Ok vs.
 Proof. intros h l t H. unfold get_arr. rewrite H. reflexivity. Qed.
 
+Lemma get_str_not_err : forall h l k, get_str h l <> Err k.
+Proof.
+  intros h l k. unfold get_str, h_get. destruct (PM.find l (cells h)) as [[[|] []]|]; discriminate.
+Qed.
+Lemma get_arr_not_err : forall h l k, get_arr h l <> Err k.
+Proof.
+  intros h l k. unfold get_arr, h_get. destruct (PM.find l (cells h)) as [[[|] []]|]; discriminate.
+Qed.
+
 Lemma succ_neq : forall p, Pos.eqb (Pos.succ p) p = false.
 Proof. intro p. apply Pos.eqb_neq. lia. Qed.
 
@@ -230,12 +239,14 @@ Section IndexGet.
       apply wf_int_bound in Hwf.
       destruct lhs as [| | | | |l|l];
         try (cbn in H; inversion H; left; split; [reflexivity|right; split; intros; discriminate]).
-      + unfold index_get in H. destruct (get_str (v_heap s) l) as [t| | |] eqn:G; try discriminate H.
+      + unfold index_get in H. destruct (get_str (v_heap s) l) as [t|k0| |] eqn:G; try discriminate H;
+          [|exfalso; exact (get_str_not_err _ _ _ G)].
         vmsimpl_in H. rewrite norm_index_spec in H by (auto using zlength_nonneg).
         destruct (in_range z (zlength t)) eqn:R.
         * vmsimpl_in H. destruct (nth_error t _); discriminate H.
         * inversion H. right. split; [reflexivity|]. exists z. split; [reflexivity|]. right. eauto.
-      + unfold index_get in H. destruct (get_arr (v_heap s) l) as [vs| | |] eqn:G; try discriminate H.
+      + unfold index_get in H. destruct (get_arr (v_heap s) l) as [vs|k0| |] eqn:G; try discriminate H;
+          [|exfalso; exact (get_arr_not_err _ _ _ G)].
         vmsimpl_in H. rewrite norm_index_spec in H by (auto using zlength_nonneg).
         destruct (in_range z (zlength vs)) eqn:R.
         * vmsimpl_in H. destruct (nth_error vs _); discriminate H.
@@ -339,19 +350,22 @@ Section IndexSet.
       apply wf_int_bound in Hwf.
       destruct lhs as [| | | | |l|l];
         try (cbn in H; inversion H; apply (SE_not_indexable _ _ _ z eq_refl); intros; discriminate).
-      + unfold index_set in H. destruct (get_str (v_heap s) l) as [t| | |] eqn:G; try discriminate H.
+      + unfold index_set in H. destruct (get_str (v_heap s) l) as [t|k0| |] eqn:G; try discriminate H;
+          [|exfalso; exact (get_str_not_err _ _ _ G)].
         vmsimpl_in H. rewrite norm_index_spec in H by (auto using zlength_nonneg).
         destruct (in_range z (zlength t)) eqn:R.
         * vmsimpl_in H.
           destruct value as [| | | | |k'|];
             try (inversion H; apply (SE_string_value _ _ _ z l t eq_refl eq_refl G R); intros; discriminate).
-          destruct (get_str (v_heap s) k'); try discriminate H. vmsimpl_in H.
-          destruct (h_set _ _ _); discriminate H.
+          destruct (get_str (v_heap s) k') as [repl|k1| |] eqn:Gk; try discriminate H;
+            [|exfalso; exact (get_str_not_err _ _ _ Gk)].
+          vmsimpl_in H. rewrite (h_set_ok _ _ _ _ (get_str_inv _ _ _ G)) in H. discriminate H.
         * inversion H. apply (SE_string_range _ _ _ z l t eq_refl eq_refl G R).
-      + unfold index_set in H. destruct (get_arr (v_heap s) l) as [vs| | |] eqn:G; try discriminate H.
+      + unfold index_set in H. destruct (get_arr (v_heap s) l) as [vs|k0| |] eqn:G; try discriminate H;
+          [|exfalso; exact (get_arr_not_err _ _ _ G)].
         vmsimpl_in H. rewrite norm_index_spec in H by (auto using zlength_nonneg).
         destruct (in_range z (zlength vs)) eqn:R.
-        * vmsimpl_in H. destruct (h_set _ _ _); discriminate H.
+        * vmsimpl_in H. rewrite (h_set_ok _ _ _ _ (get_arr_inv _ _ _ G)) in H. discriminate H.
         * inversion H. apply (SE_array_range _ _ _ z l vs eq_refl eq_refl G R).
     - intro H. destruct H as [H|z -> Ha Hs|z l vs -> -> G R|z l t -> -> G R|z l t -> -> G R Hv].
       + destruct idx; try reflexivity. exfalso. exact (H _ eq_refl).
@@ -560,7 +574,7 @@ Proof.
   - destruct (index_set_array_ok s l vs z value G Hz R) as (E & G' & _ & Hn & _ & Hl).
     rewrite E in H. inversion H; subst s'; clear H.
     assert (Hzl : zlength (replace_nth (Z.to_nat (norm z (zlength vs))) value vs) = zlength vs)
-      by (unfold zlength; rewrite Hl; reflexivity).
+      by (unfold zlength; f_equal; exact Hl).
     destruct (index_get_array_ok (push value (upd_heap s _ (v_gc s))) l _ z G' Hz) as (v & Hv & Eg).
     { rewrite Hzl. exact R. }
     rewrite Hzl in Hv. rewrite Hn in Hv. inversion Hv; subst v. exact Eg.
@@ -610,6 +624,11 @@ Proof.
   intros h v Hs Ha. destruct v; try reflexivity; exfalso; [exact (Hs _ eq_refl)|exact (Ha _ eq_refl)].
 Qed.
 
+Lemma with_new_same : forall s v, with_new s (v, v_heap s) = s.
+Proof. intros s v. unfold with_new. rewrite Pos.eqb_refl. destruct s; reflexivity. Qed.
+Lemma upd_out_nil : forall s, upd_out s (v_out s ++ []) = s.
+Proof. intros s. rewrite app_nil_r. destruct s; reflexivity. Qed.
+
 (* the instruction: CallBuiltin lengte 1 on a string pushes its number of code points and
    allocates nothing *)
 Theorem length_step : forall orc prog s l t st r,
@@ -620,16 +639,19 @@ Theorem length_step : forall orc prog s l t st r,
 Proof.
   intros orc prog s l t st r H Hst G.
   rewrite (step_CallBuiltin_raw orc prog s (code_at_head _ _ _ _ H)). unfold cont.
-  rewrite (read_u8_code prog (upd_ip s (v_ip s + 1)) _ _ (code_at_tail _ _ _ _ H)). vmsimpl.
-  assert (H2 : code_at prog (v_ip (upd_ip (upd_ip s (v_ip s + 1)) (v_ip s + 1 + 1))) (1 :: r)).
-  { vmsimpl. apply (code_at_tail _ _ (byte_of_builtin BLength)). apply (code_at_tail _ _ _ _ H). }
-  rewrite (read_u8_code prog _ _ _ H2). vmsimpl.
-  change (Z.to_nat 1) with 1%nat. cbn [pop_n]. unfold pop. vmsimpl. rewrite Hst. vmsimpl.
+  rewrite (read_u8_code prog (upd_ip s (v_ip s + 1)) _ _ (code_at_tail _ _ _ _ H)). cbn [bind].
+  rewrite upd_ip_upd_ip. cbn [v_ip upd_ip].
+  assert (H2 : code_at prog (v_ip (upd_ip s (v_ip s + 1 + 1))) (1 :: r)).
+  { cbn [v_ip upd_ip]. apply (code_at_tail _ _ (byte_of_builtin BLength)). apply (code_at_tail _ _ _ _ H). }
+  rewrite (read_u8_code prog _ _ _ H2). cbn [bind]. rewrite upd_ip_upd_ip. cbn [v_ip upd_ip].
+  replace (v_ip s + 1 + 1 + 1) with (v_ip s + 3) by lia.
+  change (Z.to_nat 1) with 1%nat. cbn [pop_n]. unfold pop.
+  change (v_stack (upd_ip s (v_ip s + 3))) with (v_stack s). rewrite Hst. cbn [bind].
   change (builtin_of_byte (byte_of_builtin BLength)) with (Some BLength). cbv iota.
-  cbn [call_builtin]. rewrite (length_chars _ _ _ G). vmsimpl.
-  unfold with_new. rewrite Pos.eqb_refl. rewrite app_nil_r.
-  rewrite (vm_eta s) at 1. unfold upd_ip, upd_stack, upd_heap, upd_out, push. vmsimpl.
-  do 2 f_equal. lia.
+  set (s3 := upd_stack (upd_ip s (v_ip s + 3)) st (v_slen (upd_ip s (v_ip s + 3)) - 1)).
+  assert (G3 : get_str (v_heap s3) l = Ok t) by exact G.
+  cbn [call_builtin]. rewrite (length_chars _ _ _ G3). cbn [bind fst].
+  rewrite with_new_same, upd_out_nil. reflexivity.
 Qed.
 
 (** * 6. Examples (non-vacuity) *)
